@@ -147,8 +147,8 @@ def judge_start(case, pred, r):
                           form=v.get("form", "")),
                      where + ": %s" % r["err"][:200]))
     if acc and layer == "system" and r.get("client_strict") is not None and r["client_strict"] != bool(v["strict"]):
-        viol.append((dict(kind="insecure-accepted", option="http-client-not-strict") if v["strict"] else dict(kind="refused-nonstrict", option="http-client-strict"),
-                     where + ": http/client.StrictMode=%s" % r["client_strict"]))
+        # internal state, not behaviour: the outbound actions decide; this is only a hint
+        drift.append(where + ": http/client.StrictMode=%s after Configure" % r["client_strict"])
     # prediction of the model: drift
     if pred is not None:
         if v.get("form") == "ipv6" and not v["strict"]:
@@ -198,8 +198,8 @@ def judge_act(case, a, pact):
                 viol.append((dict(kind="insecure-accepted", option="outbound.redirect-http", entry=a["entry"]), where + ": dials %s" % a["dials"]))
             else:
                 viol.append((dict(kind="insecure-accepted", option="outbound.http", entry=a["entry"]), where + ": dials %s" % a["dials"]))
-        if not strict and not performed:
-            viol.append((dict(kind="refused-nonstrict", option="outbound", entry=a["entry"], url=a["arg"]), where + ": " + a["err"][:160]))
+        if not strict and not performed and a["arg"] in ("http-name", "http-ip"):
+            viol.append((dict(kind="refused-nonstrict", option="outbound.http", entry=a["entry"], url=a["arg"]), where + ": " + a["err"][:160]))
     if kind == "outbound" and strict and performed and case["layer"] in ("system", "auth") and a["entry"].startswith("iam-") \
             and a["entry"] != "iam-credentials" and a["arg"] in ("https-ip", "https-reserved"):
         notes.append(("iam-nonstrict", "running strict node: IAM client entry %s sends a request to %s - Auth.strictMode is never assigned, so Auth.IAMClient() always "
